@@ -12,7 +12,8 @@ attribute names. A function "changed shape" when
   * it does not exist in the reference (a new function), or its parameter list differs from the reference's,
   * it calls a function or class of the package that exists nowhere in the reference (an extracted / pulled-up helper, a new record type) and that
     the interpreter did not enter during this run (rules declared `follows_calls` only),
-  * it calls a package function whose parameter list changed (every definition of that name),
+  * it calls a package function whose parameter list changed (every definition of that name), or it used to call a helper that the package
+    no longer defines (inlined),
   * it reads a module-level lookup table (a name bound to a dictionary) or a field that exists nowhere in the reference / is new to its class.
 
 Findings a rule marks `definite` (a positively wrong construct was identified, not an expected one missed) are never withheld.
@@ -162,6 +163,9 @@ def shape_changes(package, module: str, qualname: str, touched: Set[str], only_h
     new_helpers = sorted(h for h in callee_names(fn) if h in set(cur["defined"]) and h not in known and h not in interpreted)
     if new_helpers:
         reasons.append(f"delegates to new {new_helpers[:4]}")
+    gone = sorted(h for h in set(rf["calls"]) - callee_names(fn) if h in known and h not in set(cur["defined"]))
+    if gone and not only_helpers:
+        reasons.append(f"no longer calls {gone[:4]}, which the package no longer defines (inlined or removed helper)")
     if only_helpers:  # a rule that interprets what it reads (parameter objects, new fields and tables included) gives way only to code it did not enter
         return [r for r in reasons if r.startswith("delegates to new")]
     changed_sig = sorted(h for h in callee_names(fn) if h in ref["signatures"] and h in cur["signatures"] and cur["signatures"][h] != ref["signatures"][h] and h != "__init__")
